@@ -10,6 +10,7 @@ mod p_c08;
 mod p_c09;
 mod p_c11;
 mod p_c12;
+mod p_c15;
 mod p_c19;
 mod delivery;
 mod spec;
@@ -88,6 +89,7 @@ fn main() {
                 "C10" => p_c09::generate_c10(seed, tier, &mut sink),
                 "C12" => p_c12::generate(seed, tier, &mut sink),
                 "C11" => p_c11::generate(seed, tier, &mut sink),
+                "C15" => p_c15::generate(seed, tier, &mut sink),
                 "C19" => p_c19::generate(seed, tier, &mut sink),
                 _ => {
                     eprintln!("unknown property {}", prop);
